@@ -66,11 +66,21 @@ CHECKS = {
          "Overlay: all histories up to a length bound and random histories on scope trees against a chain-of-maps model, whole visible state compared after every step. Atomicity: 2..32 goroutines run locked read-modify-write, transfer and audit sections against plain readers/writers/lockers under GOMAXPROCS 1..16; final counter = sections, values read form a permutation, one holder at a time, sums conserved, and recorded mixed histories are checked with porcupine per key (rmw spanning LockData..Commit as one operation). Get-or-create services called from many goroutines must return one instance. Race reports in datascope and the three services decide. Held on the histories and interleavings produced.",
          "exclusion is judged per scope (ancestors static in concurrent workloads); misuse (locker after Commit) not exercised; porcupine Unknown = inconclusive",
          "DESIGN.md §5 C13"),
+ "C14": ("exploration",
+         "event-log monitor over probe commands registered in the real application stack (ordering/never-run/outcome oracles checked offline), bounded-progress check with logical-deadlock diagnosis from goroutine snapshots",
+         "Random task graphs (wait lists over earlier tasks, failing commands by return or by appended error at any position, nested submissions, invalid wait lists) are submitted through the real PipRunner from several goroutines and as terminal scripts (strict and non-strict); probe commands log begin/end events with one sequence counter and hold until their dependants were submitted. Offline oracles: a task's first begin follows the last end of every prerequisite, a task with a failed prerequisite never begins and ends failed, commands of one body do not overlap and nothing begins after a failing command, invalid wait lists are refused and leave nothing registered, TasksManager.Wait returns (or a deadlock is diagnosed) with an error iff a task failed. Held on the programs and schedules produced.",
+         "'eventually finishes' restated as bounded progress + deadlock diagnosis; race reports are observations (the statement is about ordering and outcomes)",
+         "DESIGN.md §5 C14"),
  "C15": ("exploration",
          "critical-section interval monitor (online shadow table + offline interval replay), scripted gated pairs/triples decided from goroutine scheduler states, logical-deadlock diagnosis from goroutine dumps, Go race detector",
          "2..24 holders with random and adversarial lock maps (names that sort differently by byte/case/locale, pending-writer chains, first-use races) hammer one SharedMutex; each section is checked online against a shadow readers/writer table and offline from recorded [Lock returned, Unlock called] intervals; all 729 ordered pairs of lock maps over three names are scripted with A gated inside: B must enter iff the maps do not conflict (decided from B's parked/running state, not from time); completion or a logical-deadlock diagnosis decides 'no deadlock'. The same interval oracle runs on probe logs of tasks submitted through the real pipeline (pip:run --rlock/--wlock). Held on the workloads and schedules produced.",
          "'never deadlocks' restated as bounded progress + deadlock diagnosis; non-serialisation decided only for scripted pairs/triples",
          "DESIGN.md §5 C15"),
+ "C16": ("exploration",
+         "event-log monitor over probe commands in the real application stack: handler-selection, ordering and containment oracles; scripted schedules through a verif yield hook; known-finding class predicates with verbatim witness replay",
+         "All 8x4x4x4 combinations of body kind and success/fail/finally handler kind, plus random pip:try programs (nested tasks, nested tries, holds), run through the terminal service, the argument list and scripts, alone and several at once. The probe log decides: success handler began iff the body (incl. spawned tasks) succeeded, fail handler iff it failed, finally in both cases, every handler begin after every end of the body and its tasks, and the surrounding scope / application reports an error iff a handler failed. A verif hook between the handler submissions forces the schedule in which one handler fails before the next is submitted. A missing finally (or success/fail) handler is attributed to the open findings C16-F1/F2 only if another handler of the same try failed; otherwise it is a violation. Held on the programs and schedules produced, with the listed open findings.",
+         "a handler cut short by a failing sibling is not judged; race reports are observations",
+         "DESIGN.md §5 C16"),
  "C19": ("exploration",
          "differential runtime monitor against a reference renderer built directly on html/template / text/template plus an abstract layering model; concurrent first-use stress under the race detector with process supervision",
          "Generated template file sets (overlapping definitions across helpers/layouts/views, nested directories, ignored and unparsable files) and request sequences are served by cached and uncached providers of both packages; every answer's defined names and every name's rendering are compared with the reference renderer, with a library-independent layering model and between cached and uncached; all 1024 placements of two names over the layers and all request orders up to a bound are enumerated. Fresh cached providers are hit by 2..32 goroutines released together with noise at the filespace boundary; every caller's answer is checked and race reports in the provider files decide; a fatal 'concurrent map' abort is attributed to the running trial. Held on the programs and schedules produced.",
